@@ -85,6 +85,13 @@ SetNoiseAndField(t, f, v) ==
   /\ Record("set_params", <<"process_noise", t, f, v>>, "ok", params')
   /\ UNCHANGED <<uni, orig, fits, done>>
 
+\* a replacement configuration AND one of its fields in the same call (the field is applied to the NEW configuration)
+SetConfigAndField(cfg, f, v) ==
+  /\ Can /\ cfg \in Configs /\ ConfigOK(cfg) /\ f \in ConfigFields /\ v \in ConfigVals[f]
+  /\ params' = [params EXCEPT !.config = [cfg EXCEPT ![f] = v]]
+  /\ Record("set_params", <<"config", cfg, f, v>>, "ok", params')
+  /\ UNCHANGED <<uni, orig, fits, done>>
+
 \* the whole configuration is replaced
 SetConfig(cfg) ==
   /\ Can /\ cfg \in Configs /\ ConfigOK(cfg)
@@ -146,6 +153,7 @@ SetAny ==
            \/ \E cfg \in {x \in Configs : ConfigOK(x)} : SetConfig(cfg)
            \/ \E f1 \in ConfigFields : \E f2 \in ConfigFields : \E v1 \in ConfigVals[f1] : \E v2 \in ConfigVals[f2] : SetTwoFields(f1, v1, f2, v2)
            \/ \E t \in PNoiseToks : \E f \in ConfigFields : \E v \in ConfigVals[f] : SetNoiseAndField(t, f, v)
+           \/ \E cfg \in {x \in Configs : ConfigOK(x)} : \E f \in ConfigFields : \E v \in ConfigVals[f] : SetConfigAndField(cfg, f, v)
            \/ \E k \in BogusKeys : SetBogus(k) )
 QueryAny == Can /\ \E q \in {"transform", "mahalanobis", "score"} : Query(q)
 
